@@ -115,7 +115,12 @@ type P2PStore[H goheader.Header[H]] struct {
 	mu    sync.Mutex
 	base  uint64 // height of items[0]
 	items []H
+	// FailReads makes the next n GetByHeight calls fail with a transient error (a store read that fails once).
+	FailReads int
 }
+
+// FailNextReads arms n transient read failures.
+func (s *P2PStore[H]) FailNextReads(n int) { s.mu.Lock(); s.FailReads = n; s.mu.Unlock() }
 
 func (s *P2PStore[H]) AppendItem(h H) {
 	s.mu.Lock()
@@ -139,6 +144,10 @@ func (s *P2PStore[H]) GetByHeight(_ context.Context, h uint64) (H, error) {
 	s.mu.Lock()
 	defer s.mu.Unlock()
 	var zero H
+	if s.FailReads > 0 {
+		s.FailReads--
+		return zero, errors.New("p2pstore: transient read failure")
+	}
 	if len(s.items) == 0 || h < s.base || h >= s.base+uint64(len(s.items)) {
 		return zero, goheader.ErrNotFound
 	}
